@@ -96,6 +96,9 @@ class Items:
             return ('elem', chain)
         if is_into_iter(chain):
             return self.elem_of_into_iter(chain[2][0], depth + 1) if chain[2] else TOP
+        if callee(chain) == 'std::iter::from_fn' and chain[2]:
+            # the stream of `Some` results of the generator closure (it ends at the first None)
+            return self.payload(self.apply(chain[2][0], [], depth + 1), depth + 1)
         return ('elem', chain)
 
     def elem_of_into_iter(self, x, depth=0):
@@ -108,7 +111,7 @@ class Items:
             return self.payload(x, depth + 1)
         if is_iter_method(x) or is_into_iter(x):
             return self.elem(x, depth + 1)
-        return self.elem(x, depth + 1) if x[0] == 'call' and callee(x).split('::')[-1] in ('iter', 'iter_mut', 'values', 'ids_and_values') else ('elem', x)
+        return self.elem(x, depth + 1) if x[0] == 'call' and callee(x).split('::')[-1] in ('iter', 'iter_mut', 'values', 'ids_and_values', 'from_fn') else ('elem', x)
 
     def is_option_term(self, x):
         if x[0] == 'variant' and x[1] == OPTION:
@@ -163,6 +166,8 @@ class Items:
             else:
                 nb = n(base)
                 r = self._proj(nb, t[2], t[3])
+                if r is not None and r[0] == 'field' and t in self.opa.field_info:
+                    self.opa.field_info.setdefault(r, self.opa.field_info[t])
         elif k == 'tuple':
             r = ('tuple', tuple(n(x) for x in t[1]))
         elif k == 'variant':
@@ -216,3 +221,10 @@ class Items:
                 continue
             break
         return names, cur
+
+
+    def generator_pull(self, root):
+        """for a root `iter::from_fn(closure)`: the term the generator closure returns (e.g. a pull call), else None"""
+        if root is not None and root[0] == 'call' and callee(root) == 'std::iter::from_fn' and root[2]:
+            return self.apply(root[2][0], [])
+        return None
